@@ -1,6 +1,7 @@
 package props
 
 import (
+	"bytes"
 	"encoding/json"
 	"fmt"
 	"strings"
@@ -270,6 +271,16 @@ func c07Run(c *fw.Ctx) {
 				m := append([]byte{}, base...)
 				m[k] = a
 				run(c07Case{Store: "example", Input: concat(m, ping)}, "malformed:substitution")
+			}
+			if k < 12 || k >= len(base)-4 || c.Thorough() {
+				for v := 0; v < 256; v++ {
+					if byte(v) == base[k] || bytes.IndexByte(alpha, byte(v)) >= 0 {
+						continue
+					}
+					m := append([]byte{}, base...)
+					m[k] = byte(v)
+					run(c07Case{Store: "example", Input: concat(m, ping)}, "malformed:byte-substitution")
+				}
 			}
 		}
 		for _, r := range digitRuns(base) {
